@@ -23,19 +23,22 @@ LEVEL_TEXT = (
     "clocks, uuid or id()/hash() values), so the decision tree is enumerable; (R3) the full decider's frontier "
     "disjunct, evaluated in the filters that reach random.choice, is 'distance == remaining depth' (the finding "
     "is keyed by the offset the code computes); (R4) the recursion analysis that the full and position-"
-    "independent deciders rely on sees through every wrapper form (AND forms aggregate with max; on nine model "
-    "grammars whose only cycle passes through one nested wrapper type the interpreted grammar analysis reports "
-    "the cycle); (R5) the recursive set is exact on the model grammars (sa/rules/grammodel.py); (R6) creation "
-    "model (sa/rules/creationmodel.py): random_node interpreted with the real decider objects over ALL decision "
-    "scripts (depth-first enumeration of scripted choices) on four model grammars, limits up to 3 (thorough: 4): "
-    "grow produces exactly the well-typed programs of depth <= limit, position-independent grow and the dynamic-"
-    "SGE mapping stay inside that language, full creation through the limit its initializer configures produces "
-    "exactly the programs all of whose branches end at the limit (grammars where every abstract type is "
-    "recursive). (R7) no invalid program through a refined list: its elements are created as values of the "
-    "declared element type (the C02.R7 model). Where the affine engine cannot follow the full decider's filter "
-    "(R3), the offset is read from the finite-model interpretation of the chooser on scripted distances. Grammars"
-    " with lists are outside the model (known finding R1); beyond the listed grammars and limits the equality is "
-    "not claimed."
+    "independent deciders rely on sees through every wrapper form (AND forms aggregate with max; on fourteen "
+    "model grammars whose only cycle passes through one nested wrapper type (list[Union[..]], "
+    "Annotated[list[Union[..]], ..], list[list[..]] included) the interpreted grammar analysis reports the "
+    "cycle); (R5) the tables creation chooses from are exact on the model grammars (sa/rules/grammodel.py, class "
+    "reflection by mro / __bases__ / __subclasses__ / issubclass modelled): the productions of every symbol - "
+    "including intermediate abstract types that are neither supplied nor used as a field type - and the recursive"
+    " set; (R6) creation model (sa/rules/creationmodel.py): random_node interpreted with the real decider objects"
+    " over ALL decision scripts (depth-first enumeration of scripted choices) on four model grammars, limits up "
+    "to 3 (thorough: 4): grow produces exactly the well-typed programs of depth <= limit, position-independent "
+    "grow and the dynamic-SGE mapping stay inside that language, full creation through the limit its initializer "
+    "configures produces exactly the programs all of whose branches end at the limit (grammars where every "
+    "abstract type is recursive). (R7) no invalid program through a refined list: its elements are created as "
+    "values of the declared element type (the C02.R7 model). Where the affine engine cannot follow the full "
+    "decider's filter (R3), the offset is read from the finite-model interpretation of the chooser on scripted "
+    "distances. Grammars with lists are outside the model (known finding R1); beyond the listed grammars and "
+    "limits the equality is not claimed."
 )
 
 
